@@ -12,6 +12,7 @@ INPUT_CLASSES = {
     "late_lexfail": b"print 2\n" * 40 + b"print 12abc\n",
     "lexfail_string": b'print "abc\n' + b"print 2\n" * 10,
     "empty": b"",
+    "semi_junk": b"eval 1; 2\nvar port = 8080; port = 9090\nprint 3\n" * 3,
     "multibyte": "print \"é€😀\" # é\u0085\nvar x = 1   print x\n".encode() * 4,
 }
 
@@ -196,7 +197,8 @@ def check_C12(ctx):
     many = b"".join(b"print %d +\nprint *\nvar v%d = )\n" % (i, i) for i in range(ctx.n(600, 3000)))
     inputs = {"many_syntax": many, "valid_big": b"var x = 1\nprint x + 1\n" * ctx.n(500, 5000),
               "early_fail": b"print @\n" + b"print 1\n" * 2000,
-              "late_fail": b"print 1 +\n" * ctx.n(800, 3000) + b"print 12abc\n"}
+              "late_fail": b"print 1 +\n" * ctx.n(800, 3000) + b"print 12abc\n",
+              "block_then_lexfail": b"def a{}\n" * 300 + b"eval 42q\n" + b"def b{}\n" * 50}
     cases = []
     for name, data in inputs.items():
         for j, sc in enumerate([[["d", 7]] * 4000, [["d", 1]] * 3000, [["d", 50], ["z", 0]] * 500, [], [["d", 4096]] * 3]):
@@ -220,7 +222,8 @@ def check_C12(ctx):
     # concurrent callers
     g = Gen(rng, max_depth=3, small_floats=True)
     progs = [g.program() for _ in range(ctx.n(12, 60))] + [b"def t { x = 1 }\nbind t -> struct\nprint 1\nprint 2\n",
-                                                            b"print 1/0\n", b"var a = 1\n" * 200 + b"print a\n"]
+                                                            b"print 1/0\n", b"var a = 1\n" * 200 + b"print a\n",
+                                                            b"def t { x = 1 }\ndef t { x = 2 }\nbind t:first -> struct\nbind t:last -> struct\nbind t:all -> slice\nprint 3\n"]
     ccases = [dict(id="conc%d" % k, progs=[p.hex() for p in progs], n=ctx.n(8, 32)) for k in range(ctx.n(2, 6))]
     cres, craces, crc = probe_race(ctx, "concurrent", ccases, "race_conc")
     if craces:
